@@ -159,7 +159,7 @@ def _get_second_placement(first_placement, second_start, second_end,
             if not set(tracks) & occupied_tracks:
                 return placement
     else:
-        track = max(occupied_tracks or [0]) + 1
+        track = max(occupied_tracks) + 1 if occupied_tracks else 0
         if second_start == 'auto':
             return _get_placement(
                 (None, track + 1, None), second_end, second_tracks)
